@@ -13,7 +13,7 @@ from mc.drivers import stores as S
 from mc.lattice import Emb, chunked
 
 BOUNDS = {
-    "quick": {"pairs": "s1,s2 in 0..4, d1,d2 in {-1,0,1,2,3}, data equal/different, pulsetime in {0,.5,1,1.5,2} units, units 1 s and 1 ms", "lists": "all ordered sequences of <=4 events over s in 0..3 x d in {-1,0,1,2} x 2 labels (32 values), pulsetimes {0,.5,1,2}, unit 1 s; sequences of <=2 (32 values) and 3 (12 values) at 1 ms"},
+    "quick": {"fractional_pulsetimes": "21 float pulsetimes (1.001, 2.01, 0.1+0.2, 1/3, sub-millisecond ...) x gaps floor(p)-1, floor(p), floor(p)+2, floor(p)+1000 us x 3 first durations", "pairs": "s1,s2 in 0..4, d1,d2 in {-1,0,1,2,3}, data equal/different, pulsetime in {0,.5,1,1.5,2} units, units 1 s and 1 ms", "lists": "all ordered sequences of <=4 events over s in 0..3 x d in {-1,0,1,2} x 2 labels (32 values), pulsetimes {0,.5,1,2}, unit 1 s; sequences of <=2 (32 values) and 3 (12 values) at 1 ms"},
     "thorough": {"pairs": "as quick plus s in 0..6, d up to 4", "lists": "all ordered sequences of <=4 over the 32-value alphabet and of 5, 6 over the 12-value alphabet; units 1 s and 1 ms"},
 }
 RULE = (
@@ -189,6 +189,7 @@ def run(ctx):
             alpha = _G["alphas"][an]
             for ch in chunked(alpha, 8):
                 units.append(("list", (1_000, an, n, tuple(ch))))
+    units.append(("pulse", None))
     agg = Agg()
     for r in ctx.pmap(_dispatch, units):
         agg.add(r)
@@ -217,8 +218,46 @@ def _list2_unit(args):
     return u.result()
 
 
+PULSE_CATALOGUE = (0.001, 0.0015, 0.002, 0.01, 0.1, 0.3, 0.1 + 0.2, 1 / 3, 1.001, 2.01, 4.02, 2.675, 59.999, 0.000001, 0.000002, 0.000999, 0.0005, 86400.5, 3600.000001, 5, 5.0)
+
+
+def _unit_pulse(_):
+    """fractional pulsetimes at the exact boundary: the second event starts floor(p) microseconds after
+    the first one ends (must merge) and floor(p)+2 microseconds after it (must not), for pulsetimes
+    whose float value is not a whole number of milliseconds / microseconds"""
+    from fractions import Fraction
+    from datetime import timedelta as td
+
+    ctx = _G["ctx"]
+    emb = Emb(ctx.base, 1)  # lattice unit: one microsecond
+    u = Unit()
+    L = ctx.labels
+    for p in PULSE_CATALOGUE:
+        pus = Fraction(p) * 1_000_000
+        lo = int(pus)  # floor: a gap of lo us is <= p
+        for j in (0, 1, 1234):
+            for gap, want_merge in ((lo, True), (max(lo - 1, 0), True), (lo + 2, False), (lo + 1000, False)):
+                # timestamps are floored to the millisecond by Event, so the sub-millisecond part of
+                # the gap is put into the first event's duration: its end is off-grid, the second start on it
+                d1 = (1000 - gap % 1000) % 1000 + 1000 * j
+                a = (0, d1, L[0])
+                b = (d1 + gap, 7, L[0])
+                ea, eb = emb.ev(*a), emb.ev(*b)
+                got = heartbeat_merge(ea, eb, p)
+                u.evaluations += 1
+                u.transitions += 1
+                u.states += 1
+                u.nontrivial += 1
+                merged = got is not None
+                if merged != want_merge or (merged and of_event(emb, got) != (0, d1 + gap + 7, L[0])):
+                    case = {"kind": "pulse", "pulsetime_s": p, "d1_us": d1, "gap_us": gap}
+                    u.violation("merge:fractional-pulsetime-boundary-wrong", f"heartbeat_merge(first ends at {d1} us, second starts {gap} us later, pulsetime {p!r} s): merged={merged}, expected {want_merge}", case, size=gap)
+    u.sample({"kind": "fractional pulsetime boundary", "pulsetimes_s": list(PULSE_CATALOGUE)[:8]})
+    return u.result()
+
+
 def _dispatch(u):
-    return {"pair": _pair_unit, "list": _list_unit, "list2": _list2_unit}[u[0]](u[1])
+    return {"pair": _pair_unit, "list": _list_unit, "list2": _list2_unit, "pulse": _unit_pulse}[u[0]](u[1])
 
 
 def run_case(ctx, case):
@@ -232,6 +271,9 @@ def run_case(ctx, case):
         got = heartbeat_merge(emb.ev(*a), emb.ev(*b), pus / 1_000_000)
         got_t = None if got is None else of_event(emb, got)
         return {"observed": got_t, "expected": want, "violations": [] if got_t == want else [["merge-wrong", f"{got_t} != {want}"]]}
+    if case["kind"] == "pulse":
+        r = _unit_pulse(None)
+        return {"violations": [[v["key"], v["what"]] for v in r["violations"]]}
     seq = [tuple(t) for t in case["seq"]]
     probs = check_list(emb, seq, p, Unit())
     return {"seq": seq, "expected_fold": ref_reduce([tus(emb, t) for t in seq], round(p * emb.unit_us)), "violations": [list(x) for x in probs]}
